@@ -65,6 +65,7 @@ func zzNewStore() *zzStore {
 }
 
 func (s *zzStore) write(what string) bool {
+	zzsym.Yield() // I/O: in a multi-threaded harness another activity may run here
 	if s.crashed {
 		return false
 	}
@@ -511,6 +512,7 @@ func (d *zzDA) SubmitWithOptions(ctx context.Context, blobs []coreda.Blob, gasPr
 	if d.honourCtx && ctx.Err() != nil {
 		return nil, ctx.Err()
 	}
+	zzsym.Yield() // network I/O
 	d.offered = append(d.offered, blobs)
 	a := zzDAAnswer{}
 	if d.calls < len(d.script) {
